@@ -42,7 +42,7 @@ impl<'a> Seek for FailReader<'a> {
 /// writer that accepts `cap` bytes in total, then fails
 pub struct FailWriter {
     pub got: Vec<u8>,
-    cap: usize,
+    pub cap: usize,
 }
 impl Write for FailWriter {
     fn write(&mut self, buf: &[u8]) -> std::io::Result<usize> {
@@ -74,6 +74,8 @@ pub enum Any {
     RawExt(Ipv6RawExtHeader),
     Icmp4(Icmpv4Header),
     Icmp6(Icmpv6Header),
+    /// IP header + extension headers (multi-part reader / writer)
+    Iph(IpHeaders),
 }
 
 /// error class: "len", "io" or "con:<canonical name>"
@@ -102,6 +104,11 @@ impl Any {
             Any::RawExt(h) => h.to_bytes().to_vec(),
             Any::Icmp4(h) => h.to_bytes().to_vec(),
             Any::Icmp6(h) => h.to_bytes().to_vec(),
+            Any::Iph(h) => {
+                let mut v: Vec<u8> = vec![];
+                let _ = h.write(&mut v);
+                v
+            }
         }
     }
     pub fn write<W: Write>(&self, w: &mut W) -> std::io::Result<()> {
@@ -120,6 +127,10 @@ impl Any {
             Any::RawExt(h) => h.write(w),
             Any::Icmp4(h) => h.write(w),
             Any::Icmp6(h) => h.write(w),
+            Any::Iph(h) => h.write(w).map_err(|e| match e {
+                err::ip::HeadersWriteError::Io(e) => e,
+                _ => std::io::Error::new(std::io::ErrorKind::InvalidData, "content"),
+            }),
         }
     }
     /// Some((ok, bytes left unwritten | required_len, len)) for the types that offer write_to_slice
@@ -148,6 +159,7 @@ impl Any {
             "rawext" => Ipv6RawExtHeader::from_slice(b).map(|(h, r)| (Any::RawExt(h), used(r))).map_err(|e| con(e.errp())),
             "icmp4" => Icmpv4Header::from_slice(b).map(|(h, r)| (Any::Icmp4(h), used(r))).map_err(|e| con(e.errp())),
             "icmp6" => Icmpv6Header::from_slice(b).map(|(h, r)| (Any::Icmp6(h), used(r))).map_err(|e| con(e.errp())),
+            "iph" => IpHeaders::from_slice(b).map(|(h, p)| (Any::Iph(h), (p.payload.as_ptr() as usize) - (b.as_ptr() as usize))).map_err(|e| con(e.errp())),
             other => panic!("unknown type {}", other),
         }
     }
@@ -170,6 +182,11 @@ impl Any {
             "rawext" => Ipv6RawExtHeader::read(r).map(Any::RawExt).map_err(io),
             "icmp4" => Icmpv4Header::read(r).map(Any::Icmp4).map_err(io),
             "icmp6" => Icmpv6Header::read(r).map(Any::Icmp6).map_err(io),
+            "iph" => IpHeaders::read(r).map(|(h, _)| Any::Iph(h)).map_err(|e| match e {
+                ip::HeaderReadError::Io(_) => "io".into(),
+                ip::HeaderReadError::Len(_) => "len".into(),
+                ip::HeaderReadError::Content(c) => con(c.errp()),
+            }),
             other => panic!("unknown type {}", other),
         }
     }
